@@ -96,7 +96,9 @@ def hist_to_schedule(fam, hist, name):
 
 def counterexample_schedule(fam, dump):
     j = json.load(open(dump))
-    states = j.get("state") or j.get("states") or j
+    if isinstance(j, dict) and "counterexample" in j:
+        j = j["counterexample"]
+    states = j.get("state") or j.get("states") if isinstance(j, dict) else j
     last = states[-1]
     if isinstance(last, list):
         last = last[1]
